@@ -36,7 +36,7 @@ FILE_FAULTS = ["missing", "directory", "dangling-symlink", "unreadable"]
 # faults that need a base rule whose verdict DEPENDS on the faulted entry (a silently ignored value must flip 'found' to 'not found'):
 # a run of two instructions asked for with times 2, a $deref, an instruction with two described operands, a macro use with times
 SPECIAL_BASE_FAULTS = (
-    [f"times-{t}-{w}" for t in ("str", "float", "list", "null", "floatbounds", "strbounds") for w in ("sibling", "group", "inside")]
+    [f"times-{t}-{w}" for t in ("str", "float", "list", "null", "floatbounds", "strbounds", "bool", "boolbounds") for w in ("sibling", "group", "inside")]
     + ["times-only-child-of-mapping-group", "times-neg-in-nested-mapping-group"]
     + ["times-neg-on-macro-use", "times-inverted-on-macro-use", "times-str-on-macro-use"]
     + ["deref-main-reg-null", "deref-offset-null", "deref-index-null"]
@@ -153,7 +153,8 @@ def inject_rule_fault(fault, doc, pos, garbage):
                 pat[1] = {"$and": {"$or": {"nop": [], "xor": [], "times": [-2, {"min": 3, "max": 1}, {"min": -1, "max": 2}][pos % 3]}, "cltq": {"times": 0}}}
                 return doc, None, None
             bad = {"str": ["2", "'2'", "two"], "float": [2.0, 2.5, -1.5], "list": [[2], [2, 2], []], "null": [None], "neg": [-2], "inverted": [{"min": 3, "max": 1}],
-                   "floatbounds": [{"min": 2.0, "max": 2.0}, {"min": 1.0, "max": 2.5}, {"min": 2, "max": 2.5}], "strbounds": [{"min": "2", "max": "2"}, {"min": 2, "max": "2"}]}[kind]
+                   "floatbounds": [{"min": 2.0, "max": 2.0}, {"min": 1.0, "max": 2.5}, {"min": 2, "max": 2.5}], "strbounds": [{"min": "2", "max": "2"}, {"min": 2, "max": "2"}],
+                   "bool": [True, False], "boolbounds": [{"min": False, "max": True}, {"min": True, "max": 2}, {"min": 2, "max": True}]}[kind]
             bad = bad[pos % len(bad)]
             it = pat[1]
             if fault.endswith("-on-macro-use"):
